@@ -28,9 +28,9 @@ func corruptFrame(env *Env, b []byte) []byte {
 	out := append([]byte(nil), b...)
 	fields := bytes.Split(bytes.TrimSuffix(out, []byte{1}), []byte{1})
 	join := func(f [][]byte) []byte { return append(bytes.Join(f, []byte{1}), 1) }
-	kind := ch.Choose("corruption", 17)
+	kind := ch.Choose("corruption", 18)
 	env.Stat("fault_corrupt_" + []string{"bitflip", "delbyte", "insbyte", "dupbytes", "delfield", "dupfield", "swapfields", "emptyvalue",
-		"bodylen_huge", "bodylen_negative", "bodylen_offbyone", "truncate", "xmldata", "garbage_prefix", "bodylen_zero", "nonnumeric_tag", "extreme_integer"}[kind])
+		"bodylen_huge", "bodylen_negative", "bodylen_offbyone", "truncate", "xmldata", "garbage_prefix", "bodylen_zero", "nonnumeric_tag", "extreme_integer", "xml_swallows_trailer_then_group"}[kind])
 	switch kind {
 	case 0:
 		i := ch.Choose("pos", len(out))
@@ -106,7 +106,7 @@ func corruptFrame(env *Env, b []byte) []byte {
 		fields = append(fields[:at], append(ins, fields[at:]...)...)
 		tmp := join(fields)
 		rest := len(tmp) - (bytes.Index(tmp, []byte("213=")) + 4)
-		ln := []string{"5", "0", "-1", "500", "x", strconv.Itoa(rest), strconv.Itoa(rest - 1), strconv.Itoa(rest - 2), strconv.Itoa(rest - 4), strconv.Itoa(rest - 7), strconv.Itoa(rest - 8), strconv.Itoa(rest + 1)}[ch.Choose("xmllen", 12)]
+		ln := []string{"5", "0", "-1", "500", "x", strconv.Itoa(rest), strconv.Itoa(rest - 1), strconv.Itoa(rest - 2), strconv.Itoa(rest - 4), strconv.Itoa(rest - 7), strconv.Itoa(rest - 8), strconv.Itoa(rest + 1), "9223372036854775807", "9223372036854775800"}[ch.Choose("xmllen", 14)]
 		fields[at] = []byte("212=" + ln)
 		out = join(fields)
 	case 13:
@@ -116,6 +116,15 @@ func corruptFrame(env *Env, b []byte) []byte {
 		i := ch.Choose("field", len(fields))
 		fields[i] = append([]byte("x"), fields[i]...)
 		out = join(fields)
+	case 17:
+		// the data field swallows the SOH and the "10=" in front of what then looks like a group count
+		// field at the very end of the message (matters with an application dictionary)
+		if len(fields) > 1 {
+			grp := []string{"453=1", "78=2", "146=1", "268=3", "555=1"}[ch.Choose("grouptag", 5)]
+			tail := [][]byte{[]byte("212=6"), []byte("213=xx"), []byte("10=4" + grp)}
+			fields = append(fields[:len(fields)-1], tail...)
+			out = join(fields)
+		}
 	case 16:
 		// an integer field (sequence numbers, ranges, intervals) with an extreme value
 		var nums []int
@@ -150,7 +159,24 @@ func corruptFrame(env *Env, b []byte) []byte {
 			}
 		}
 	}
-	// half of the time make the checksum consistent again, so that the damage is not caught there
+	// Half of the time repair the envelope (BodyLength and CheckSum) so that the damage is not caught
+	// by the length check and reaches the session logic; otherwise at most the checksum is made consistent.
+	lengthKinds := kind == 8 || kind == 9 || kind == 10 || kind == 14 || kind == 11
+	if !lengthKinds && ch.Chance("repairenvelope", 1, 2) {
+		if i9 := bytes.Index(out, []byte("\x019=")); i9 >= 0 {
+			if k := bytes.IndexByte(out[i9+3:], 1); k >= 0 {
+				e9 := i9 + 3 + k
+				if i10 := bytes.LastIndex(out, []byte("\x0110=")); i10 >= e9 {
+					out = append(append(append([]byte(nil), out[:i9+3]...), strconv.Itoa(i10-e9)...), out[e9:]...)
+				}
+			}
+		}
+		if i := bytes.LastIndex(out, []byte("\x0110=")); i >= 0 {
+			out = wire.Seal(out[:i+1])
+		}
+		env.Stat("probe_corrupted_with_valid_envelope")
+		return out
+	}
 	if ch.Chance("resum", 1, 2) {
 		if i := bytes.LastIndex(out, []byte("\x0110=")); i >= 0 {
 			out = wire.Seal(out[:i+1])
